@@ -9,6 +9,9 @@ class MatrixParser(SubParser):
         Entry point for general parser. At this point, the current token is
         row, column, or begin.
         """
+        if self.context.in_matrix():
+            # One matrix at a time: the block being built would be lost.
+            return self.token_error("Nesting not allowed here.")
         self.code_gen.add_instruction(OpCode.MATRIX)
         inline_matrix = not self.current_token.is_a(TokenTypes.BEGIN)
         if not self.operand_list():
